@@ -12,6 +12,23 @@ CLAIMED = {
     design_ref="§4 C19", note="Trusted: rustc constant evaluation and MIR construction, the mirfacts serialiser, the GF(2) normaliser, the textbook derivation of the table method. A routine rewritten into a different algorithm is reported as unrecognised (fail closed).",
     technique="static analysis: compiled-constant table check + symbolic GF(2) normal-form shape matching of MIR expressions"),
 }
+PANIC_NOTE = ("Trusted: rustc MIR construction, the mirfacts serialiser, the abstract domain and call models in analysis/ (documented panicking std APIs), "
+              "the trust rules T1/T2/T4/T5/T6 and each entry of tables/reviewed_safe.json (one-line safety argument per site). Release-build semantics: "
+              "overflow checks out of scope; lengths < 2^31; 64-bit offset arithmetic does not wrap. Panics inside dependencies are not analysed.")
+CLAIMED.update({
+ "C01": dict(category="other",
+    text="Sound abstract interpretation (intervals + difference constraints + length relations, with interprocedural precondition lifting) of every body reachable from the 10 text-mode print_char entry points: each panic-capable construct (index, slice, insert/remove, unwrap/expect, explicit panic, division, clamp) is discharged on all paths for an arbitrary entry state, or trusted by a named rule, or listed with a one-line safety argument, or listed as a known genuine defect. A new undischarged site, or a site whose proof stops going through, is a violation.",
+    design_ref="§3, §4 C01", note=PANIC_NOTE,
+    technique="static analysis: abstract interpretation over type-checked MIR (rustc_private driver) + call-graph reachability"),
+ "C02": dict(category="other",
+    text="Same calculus over Buffer::from_bytes, the 14 format loaders (through dyn OutputFormat), SauceData::extract, BitFont::from_bytes, TheDrawFont::from_tdf_bytes, Palette::load_palette and Layer::from_clipboard_data: the input slice has unknown length at entry, so every data[o] / &data[a..b] / unwrap must be dominated by a check that implies it. The many genuine unchecked reads are listed one by one as known findings; any other undischarged read is a violation.",
+    design_ref="§3, §4 C02", note=PANIC_NOTE,
+    technique="static analysis: abstract interpretation over type-checked MIR + call-graph reachability (CHA/RTA)"),
+ "C10": dict(category="proof",
+    text="Who-may-call rule over all non-test bodies of the crate: no unchecked char/str/String constructor (or transmute into a text type) is called unless the interval of its argument, computed by abstract interpretation, lies inside the Unicode scalar-value range. With those excluded every char and String is produced by safe code, so validity follows from the type system.",
+    design_ref="§4 C10", note="Trusted: rustc's type system for safe code, std's checked constructors, the interval domain for the exemption, the matcher's list of unchecked constructors (positive control checked each run). Dependencies not analysed.",
+    technique="static analysis: whole-crate call-site rule on resolved callees + interval analysis of arguments"),
+})
 NOT_APPLICABLE = {p: PENDING for p in ["C%02d" % i for i in range(1, 21)]}
 NOT_APPLICABLE.update({
  "C05": "value-level: equality of pictures after save->load depends on run-time cell values along data-dependent paths of two separate programs (writer, reader); no structural clause is a genuine necessary condition that is not also a frozen-layout match (DESIGN §5)",
